@@ -91,7 +91,10 @@ def _body(E, w, prog):
     dsk = catalog._layers(m)
     keys = _flat(coll.__dask_keys__())
     r = Runner(dsk)
-    results = {k: r.get(k) for k in keys}
+    from symx.sarr import Shared, shared
+
+    # what a scheduler hands back: blocks that own their memory and stay in the persisted graph
+    results = {k: shared(r.get(k), owndata=True) for k in keys}
     rebuild, args = coll.__dask_postpersist__()
     for variant in ("own-keys", "renamed-outputs"):
         layer = dict(results) if variant == "own-keys" else {("scheduler-out",) + k[1:]: v for k, v in results.items()}
@@ -104,6 +107,10 @@ def _body(E, w, prog):
         whole, _d, _r = catalog.run_tree(E, pm, chunks, f"persist[{variant}]", check_shapes=True, check_keys=True)
         same_array(E, whole, prog.ref, label=f"persist[{variant}]-values", skolem="pp" + variant[0])
         if variant == "own-keys":
+            # compute() of the persisted collection hands back a private array, never the buffer the graph keeps
+            got = catalog.computed(E, w, pm)
+            E.ensure("persisted-compute-returns-a-private-array", not isinstance(got, Shared) and all(got is not v for v in results.values()))
+            same_array(E, got, prog.ref, label="persisted-compute-values", skolem="pq")
             _follow_on(E, w, p, prog, "persisted")
     # ---- dask.optimize(x): dask walks x.expr generically (Expr.__dask_graph__: every node's _layer() on the *un-lowered*
     # tree, nodes without a _layer materialize themselves), schedules nothing, and rebuilds through __dask_postpersist__
